@@ -227,7 +227,7 @@ class C11(Property):
         ("antismash/detection/cluster_hmmer/__init__.py", "regenerate_previous_results"),
         ("antismash/modules/tta/tta.py", "TTAResults.schema_version"),
         ("antismash/modules/tta/tta.py", "TTAResults.__init__"),
-        ("antismash/modules/tta/tta.py", "TTAResults.new_feature_from_basics"),
+        ("antismash/modules/tta/tta.py", "TTAResults.new_feature_from_location"),
         ("antismash/modules/tta/tta.py", "TTAResults.to_json"),
         ("antismash/modules/tta/tta.py", "TTAResults.from_json"),
         ("antismash/modules/tta/tta.py", "TTAResults.add_to_record"),
@@ -501,12 +501,22 @@ class C11(Property):
                 else:
                     body.append(rng.choice(["GCC", "GGC", "CCG", "ATG", "GAT", "CGC", "AAG"]))
             strand = rng.choice([1, -1])
-            start = len("".join(seq)) + 0
             spacer = "GC" * rng.randrange(1, 6)
             seq.append(spacer)
             start = len("".join(seq))
-            seq.append("".join(body))
-            genes.append({"name": f"g{g}", "lo": start, "hi": start + 3 * codons, "strand": strand})
+            text = "".join(body)
+            gene = {"name": f"g{g}", "lo": start, "hi": start + 3 * codons, "strand": strand}
+            if rng.random() < 0.35:
+                # two exons; the split may fall inside a codon
+                k = rng.randrange(1, len(text))
+                intron = "GT" + "C" * rng.randrange(0, 7) + "AG"
+                seq.append(text[:k] + intron + text[k:])
+                parts = [[start, start + k], [start + k + len(intron), start + len(intron) + len(text)]]
+                gene["parts"] = parts if strand == 1 else parts[::-1]
+                gene["hi"] = start + len(intron) + len(text)
+            else:
+                seq.append(text)
+            genes.append(gene)
         s = "".join(seq)
         # pad to reach the GC target exactly where possible
         total = len(s) + n
@@ -524,7 +534,7 @@ class C11(Property):
         steps = [{"threshold": t} for t in thresholds[1:]]
         mut = None
         if rng.random() < 0.3:
-            mut = rng.choice(["schema:1", "schema:3", "record_id", "empty_json"])
+            mut = rng.choice(["schema:2", "schema:4", "record_id", "empty_json"])
         return {"kind": "tta", "record_id": rng.choice(["rec1", "Y.9"]), "seq": s, "genes": genes,
                 "t0": thresholds[0], "steps": steps, "mut": mut}
 
@@ -1118,7 +1128,14 @@ class C11(Property):
     # ---- TTA
     def tta_record(self, case: Dict[str, Any], record_id: Optional[str] = None) -> Any:
         from antismash.common.secmet.test.helpers import DummyCDS, DummyRecord, DummySubRegion
-        feats = [DummyCDS(g["lo"], g["hi"], g["strand"], locus_tag=g["name"]) for g in case["genes"]]
+        from antismash.common.secmet.locations import CompoundLocation, FeatureLocation
+        feats = []
+        for g in case["genes"]:
+            if g.get("parts"):
+                location = CompoundLocation([FeatureLocation(a, b, g["strand"]) for a, b in g["parts"]])
+                feats.append(DummyCDS(location=location, locus_tag=g["name"], translation="M" * 5))
+            else:
+                feats.append(DummyCDS(g["lo"], g["hi"], g["strand"], locus_tag=g["name"]))
         rec = DummyRecord(features=feats, seq=case["seq"], record_id=record_id or case["record_id"])
         rec.add_subregion(DummySubRegion(0, len(case["seq"])))
         rec.create_regions()
@@ -1130,7 +1147,7 @@ class C11(Property):
         rec0 = self.tta_record(case)
         opts = config(tta_threshold=0.0)
         everything = tta.detect(rec0, opts)
-        all_codons = [[int(s), int(d)] for s, d in everything.codon_starts]
+        all_codons = [loc_obs(f.location) for f in everything.features]
         gc = rec0.get_gc_content()
         opts = config(tta_threshold=fl(case["t0"]))
         x = tta.detect(self.tta_record(case), opts)
@@ -1163,7 +1180,7 @@ class C11(Property):
             entry["ran"] = final is not regenerated
             final.add_to_record(rec)
             entry["json"] = to_wire(orjson.loads(orjson.dumps(final.to_json())))
-            entry["features"] = [[int(f.location.start), int(f.location.end), int(f.location.strand)] for f in final.features]
+            entry["features"] = [loc_obs(f.location) for f in final.features]
             # what a fresh run under these options stores
             fresh = tta.detect(self.tta_record(case, cur_record_id), opts)
             entry["equals_fresh"] = orjson.dumps(fresh.to_json()) == orjson.dumps(final.to_json())
@@ -1316,25 +1333,31 @@ class C11(Property):
         corr, spec_ok, detail = True, True, ""
         msteps = drv["steps"]
         for i, step in enumerate(obs["steps"]):
+            if "json" in step and not step["equals_fresh"]:
+                spec_ok = False
+                detail = detail or (f"step {i}: results after {step['outcome']} differ from a fresh run under the "
+                                    f"current threshold: {step}")[:600]
+        for i, step in enumerate(obs["steps"]):
             if i >= len(msteps):
-                corr, detail = False, "model stopped early"
+                corr, detail = False, detail or "model stopped early"
                 break
             m = msteps[i]
             if step["outcome"] != m["outcome"]:
-                corr, detail = False, f"step {i}: implementation {step['outcome']} vs model {m['outcome']}"
+                corr = False
+                detail = detail or f"step {i}: implementation {step['outcome']} vs model {m['outcome']}"
                 break
             if "json" not in step:
                 break
             if step["ran"] != m["ran"] or step["json"] != m["json"] or step["features"] != m["features"]:
                 corr = False
-                detail = f"step {i}: implementation {step} vs model {m}"
+                detail = detail or f"step {i}: implementation {step} vs model {m}"[:800]
                 break
-            if not step["equals_fresh"] or not m["reference_ok"]:
+            if not m["reference_ok"]:
                 spec_ok = False
-                detail = f"step {i}: results after reuse differ from a fresh run under the current threshold: {step}"
+                detail = detail or f"step {i}: model result differs from the reference of the spec"
             if step["outcome"] == "reuse" and not m["may_reuse"]:
                 spec_ok = False
-                detail = f"step {i}: reused across a schema change"
+                detail = detail or f"step {i}: reused across a schema change"
         outcomes = tuple(sorted({"tta:" + s["outcome"].split(":")[0] for s in obs["steps"]}))
         return Judgement(corr, spec_ok, nontrivial=obs["n_codons"] > 0, tags=("tta",) + outcomes
                          + (("mutated",) if obs["mutated"] else ("same-settings",)), detail=detail)
